@@ -177,6 +177,8 @@ def run(chk, replay=None):
         # ---- specification growth (drift only): what an LLMNR responder does with one datagram (filter, handler chain, reply)
         vlib.replay_cases(chk, "LLMNRResponder", vlib.cfg("G06_responder.cfg"), "g06.responder", "growth_responder")
         chk.assumptions.append("growth (drift only): LLMNRResponder.tla -- RFC 4795 filter (QR, OPCODE), handler chain order/termination, reply id/QR/question section, header-bit constants (DESIGN 13.7 G06)")
+        # ---- the same entry points called by 8 goroutines at once (race-detector build): results as when called alone
+        vlib.parallel_callers(chk, "llmnr")
     finally:
         shutil.rmtree(d, ignore_errors=True)
 
